@@ -126,6 +126,7 @@ static rc::Gen<Civil> civil_gen() {
 }
 
 static void run(const vf::Args& a, vf::Evidence& ev, vf::Reporter& rep) {
+  vf::History::enabled() = true;  // failing cases carry the cases that ran just before them (state between calls)
   ev.rule = "rapidcheck: alignment x civil time A (years: modern, +-2^k, within 800 years of the int64 limits, "
             "multiples of 400, uniform) x count n drawn inside the exactly computed admissible interval "
             "(styles: small, multiples of the next-coarser unit +-1, +-2^k, interval edges incl. INT64_MIN/MAX, "
